@@ -1,5 +1,5 @@
 (** C13 - push constant range covers the variable, from offset 0, once. *)
-From W2W Require Import Wf C03Spec C13Spec C13Proof Obs C13Obs.
+From W2W Require Import Wf C03Spec C13Spec C13Proof Obs C13Obs Layout LayoutFacts C13Mult.
 
 (** If and only if the module has a push constant variable the output has PUSH_CONSTANT_STAGES and exactly
     one range [0, size) using that constant, size = the Layouter (WGSL) size of the variable's type; the
@@ -41,3 +41,21 @@ Example C13_obs_nonvacuous :
   exists out_, gen ex_mod "" None (mkOptions false false false false MVRust) = Ok out_ /\
     obs_pc_ranges out_ = Some [(st_of Compute, 0%N, 16%N)].
 Proof. eexists. split; vm_compute; reflexivity. Qed.
+
+(** "(a multiple of 4)": every size the WGSL layout rules of [Spec/Layout.v] assign - to 32-bit scalars, vectors,
+    f32 matrices, fixed arrays and structs of those, nested to any depth - is a multiple of 4 ... *)
+Theorem C13_wgsl_sizes_multiple_of_4 : forall t, (l_size t mod 4 = 0)%N.
+Proof. exact l_size_multiple_of_4. Qed.
+Print Assumptions C13_wgsl_sizes_multiple_of_4.
+
+(** ... hence so is the length of the emitted range, which starts at 0. Premise [pc_layout_agrees] (evaluated on
+    every case): the push constant's type is in the domain of [Layout.wgsl_lty] and naga's Layouter size is the
+    size those rules give. *)
+Theorem C13_length_multiple_of_4 : forall m src inc o out_,
+  wf m = true -> pc_size_agrees m = true -> pc_layout_agrees m = true -> gen m src inc o = Ok out_ ->
+  Forall (fun r => pr_start r = 0%N /\ (pr_end r mod 4 = 0)%N) (o_pc_ranges out_).
+Proof. exact pc_range_multiple_of_4. Qed.
+Print Assumptions C13_length_multiple_of_4.
+
+Example C13_mult_nonvacuous : pc_layout_agrees ex_mod = true.
+Proof. reflexivity. Qed.
